@@ -36,7 +36,7 @@ func init() {
 					return rel == "" || rel == "internal/messages" || rel == "internal/remoting/serialize" || rel == "internal/cluster"
 				})
 			}},
-			{ID: "C12.R11", Min: 4, Desc: "writer and reader choose between the registered format and the user Codec by the same registry-membership test", Fn: codecChoice},
+			{ID: "C12.R11", Min: 2, Desc: "writer and reader choose between the registered format and the user Codec by the same registry-membership test", Fn: codecChoice},
 			{ID: "C12.R12", Min: 4, Desc: "strings and byte slices the Reader decodes own their bytes (no view of the frame buffer)", Fn: c12DecodedOwnBytes},
 			{ID: "C12.R5", Min: 7, Desc: "no lossy conversion on the writer side", Fn: c12Lossy},
 			{ID: "C12.R6", Min: 12, Desc: "positional field correspondence", Fn: c12Positions},
@@ -301,7 +301,39 @@ func callsMethod(fn *ssa.Function, name string) bool {
 
 // lengthCases: for the switch over lengthSize, which primitive each constant case uses.
 func lengthCases(fn *ssa.Function, prefix string) map[int64]string {
+	return lengthCasesDepth(fn, prefix, 2)
+}
+
+func lengthCasesDepth(fn *ssa.Function, prefix string, depth int) map[int64]string {
 	out := map[int64]string{}
+	defer func() {
+		// a thin delegate (the switch lives in a shared — possibly generic — helper the size parameter is handed to)
+		if len(out) > 0 || depth == 0 {
+			return
+		}
+		for _, b := range fn.Blocks {
+			for _, in := range b.Instrs {
+				c := callOf(in)
+				if c == nil || c.StaticCallee() == nil || len(c.StaticCallee().Blocks) == 0 {
+					continue
+				}
+				passes := false
+				for _, a := range c.Args {
+					if _, isP := strip(a).(*ssa.Parameter); isP {
+						if bt, isB := a.Type().Underlying().(*types.Basic); isB && bt.Info()&types.IsInteger != 0 {
+							passes = true
+						}
+					}
+				}
+				if !passes {
+					continue
+				}
+				for k, v := range lengthCasesDepth(c.StaticCallee(), prefix, depth-1) {
+					out[k] = v
+				}
+			}
+		}
+	}()
 	for _, ifi := range ifsOf(fn) {
 		f, ok := condFact(ifi.Cond, true)
 		if !ok || f.Op != token.EQL || f.IsNil || f.Y != nil {
